@@ -53,6 +53,25 @@ fn crc56(message: &[u32]) -> u32 {
     data >> 8
 }
 
+/// Parity check of squitters.
+///
+/// DF17/DF18 carry the CRC-24 of the preceding 88 bits in their PI field, DF11 the
+/// CRC-24 of the preceding 32 bits overlaid with the interrogator code in the low 7 bits.
+/// All other formats overlay the address on the parity and cannot be checked here.
+pub(crate) fn parity_ok(message: &[u32], df: u32) -> bool {
+    let len = (message.len() * 4) as u32;
+    match df {
+        11 | 17 | 18 => range_value(message, len - 23, len).is_some_and(|pi| {
+            let syndrome = get_crc(message, df) ^ pi;
+            match df {
+                11 => syndrome & 0xFFFF80 == 0,
+                _ => syndrome == 0,
+            }
+        }),
+        _ => true,
+    }
+}
+
 /// Calculate the reminder of the message
 ///
 /// # Arguments
@@ -63,6 +82,7 @@ fn crc56(message: &[u32]) -> u32 {
 ///
 /// The reminder of the message
 ///
+#[cfg_attr(not(test), allow(dead_code))]
 pub(crate) fn reminder(message: &[u32]) -> u32 {
     let generator = [0b11111111u16, 0b11111010u16, 0b00000100u16, 0b10000000u16];
 
